@@ -4,7 +4,7 @@ import SciVerif.Tie.Pins
 /-! Tie A obligations for C02 on the current source. -/
 namespace SciVerif.Tie
 -- functions the model relies on without an obligation of its own naming them (pinned by bin/mkpins):
--- PIN-ALSO: Scipipe.FileIP_TempPath Scipipe.FileIP_Exists Scipipe.FileIP_TempFileExists
+-- PIN-ALSO: Scipipe.FileIP_TempPath Scipipe.FileIP_Exists Scipipe.FileIP_TempFileExists Scipipe.Process_initDefaultPathFuncs Scipipe.Task_TempDir
 open SciVerif.TaskFS
 
 theorem generated_wf_c02 : WF_C02 taskSem := by decide
@@ -32,6 +32,7 @@ theorem generated_all_ops_known_c02 : taskSemKnown = true := by decide
 
 
 
+
 -- BEGIN PINS (written by bin/mkpins; do not edit by hand)
 /-- the Go functions this property's model and obligations were written against have exactly the
 pinned skeletons (SHA-256 prefix of the atom list) -/
@@ -42,7 +43,9 @@ theorem pinned_skeletons_c02 :
      ("Scipipe.FileIP_TempFileExists", "b451ff234c47445a"),
      ("Scipipe.FileIP_TempPath", "7eba22a35232a5cb"),
      ("Scipipe.FinalizePaths", "291fc0cefa37cea9"),
+     ("Scipipe.Process_initDefaultPathFuncs", "012072977ffdc36d"),
      ("Scipipe.Task_Execute", "40fd1fec0c69deb2"),
+     ("Scipipe.Task_TempDir", "6d565a2ddd3d0eb2"),
      ("Scipipe.Task_anyOutputsExist", "0609a842b7aaf7a8"),
      ("Scipipe.Task_executeCommand", "98e77d849c0638cb"),
      ("Scipipe.Task_finalizePaths", "9cd0530d4e86fa92"),
